@@ -268,12 +268,12 @@ void misc_string_ops(Enumerator &E) {
                 E.cell(nm("to_buffer_into", "which" + std::to_string(which), std::string("obj=") + L(LC16[ti], 16) + ",dst=" + L(LC16[di], 16)), b, ts);
             }
             for (unsigned b64 = 0; b64 < 2; b64++)
-                for (int corrupt = 0; corrupt < 2; corrupt++) {
+                for (int corrupt = 0; corrupt < 4; corrupt++) {      // 1 a bad character, 2 one white-space character, 3 line-wrapped text
                     Builder b; uint32_t d = b.buf(0, LC16[di]);
                     Op o; o.kind = S_DECODE; o.a = d; o.b = SRC; o.c = LC16[ti]; o.d = b64;
-                    if (corrupt) { o.fault = F_CORRUPT; o.fc = 1 | (3 << 8); }
+                    if (corrupt) { o.fault = F_CORRUPT; o.fc = (corrupt == 1 ? 1 : corrupt == 2 ? 3 : 4) | (3 << 8); }
                     size_t ts = b.target(o);
-                    E.cell(nm("decode", std::string(b64 ? "base64" : "hex") + (corrupt ? ",corrupted" : ""), std::string("raw=") + L(LC16[ti], 16) + ",dst=" + L(LC16[di], 16)), b, ts);
+                    E.cell(nm("decode", std::string(b64 ? "base64" : "hex") + (corrupt == 1 ? ",corrupted" : corrupt == 2 ? ",white_space" : corrupt == 3 ? ",line_wrapped" : ""), std::string("raw=") + L(LC16[ti], 16) + ",dst=" + L(LC16[di], 16)), b, ts);
                 }
         }
     // std::filesystem::path in and out, the self-aliasing assignments, the stored "..."_stfmt formatter
